@@ -50,7 +50,7 @@ func main() {
 		return nil
 	})
 	sort.Strings(dirs)
-	var pkgVars, keeperFields, clockCalls, goStmts, mapRanges, genesisFields, storePrefixes, blockers, coinCalls, msgHandlers []fact
+	var pkgVars, keeperFields, clockCalls, goStmts, mapRanges, genesisFields, storePrefixes, blockers, coinCalls, msgHandlers, appWiring []fact
 	for _, rel := range dirs {
 		fset := token.NewFileSet()
 		pkgs, err := parser.ParseDir(fset, filepath.Join(*repo, rel), func(fi os.FileInfo) bool {
@@ -171,6 +171,24 @@ func main() {
 						ast.Inspect(d.Body, func(n ast.Node) bool {
 							switch n := n.(type) {
 							case *ast.CallExpr:
+								if se, ok := n.Fun.(*ast.SelectorExpr); ok && rel == "app" {
+									m := se.Sel.Name
+									if m == "SetOrderBeginBlockers" || m == "SetOrderEndBlockers" || m == "SetOrderInitGenesis" {
+										k := 0
+										for _, a := range n.Args {
+											as := exprStr(a)
+											if strings.Contains(as, "moduletypes.ModuleName") {
+												appWiring = append(appWiring, fact{m, fmt.Sprintf("%02d", k), as})
+												k++
+											}
+										}
+									}
+									if m == "SetHooks" {
+										for _, a := range n.Args {
+											appWiring = append(appWiring, fact{m, exprStr(se.X), exprStr(a)})
+										}
+									}
+								}
 								if se, ok := n.Fun.(*ast.SelectorExpr); ok {
 									m := se.Sel.Name
 									if strings.Contains(m, "MintCoins") || strings.Contains(m, "BurnCoins") || strings.Contains(m, "SendCoins") ||
@@ -236,6 +254,7 @@ func main() {
 	emit("storePrefixes", "store key prefixes declared in */types (directory, constant, value)", storePrefixes)
 	emit("coinCalls", "calls that create, destroy or move coins (file, function, callee) in keepers, module roots and app", coinCalls)
 	emit("msgHandlers", "message handlers: exported methods of msgServer in */keeper (directory, file, handler)", msgHandlers)
+	emit("appWiring", "app/app.go: relative order of the six storage modules in begin-blockers, end-blockers and InitGenesis; arguments of SetHooks", appWiring)
 	emit("blockers", "begin/end blocker entry points (directory, file, function)", blockers)
 	b.WriteString("end SaoVerif.Generated\n")
 	if *out == "" {
